@@ -70,6 +70,21 @@ def interp {γ : Type} (ltg : γ → γ → Bool) (f : β → Pack γ) : Pack β
   | [] => []
   | (b, q) :: t => mul ltg ((f b).pow q) (interp ltg f t)
 
+
+/-- `InStandardPackOrder<P<…>, P<…>>` (packs.hh:347-362): lexicographic on (lead base, lead exponent), then
+the tails; the empty pack sorts first.  `OrderByDim` / `OrderByMag`, the second and third keys of the
+unit ordering `InOrderFor<UnitProduct, ·, ·>`, are this order on `DimT` / `MagT`. -/
+def packLt (lt : β → β → Bool) : Pack β → Pack β → Bool
+  | [], [] => false
+  | [], _ :: _ => true
+  | _ :: _, [] => false
+  | (b1, e1) :: t1, (b2, e2) :: t2 =>
+    if lt b1 b2 then true
+    else if lt b2 b1 then false
+    else if e1 - e2 < 0 then true
+    else if e2 - e1 < 0 then false
+    else packLt lt t1 t2
+
 end Pack
 
 /-- What `LexicographicTotalOrdering` demands of a base order. -/
